@@ -2890,7 +2890,11 @@ def transform_compressible(items, constants, labels):
         label_dependent = False
         if hasattr(item, 'imm'):
             try:
-                item.imm.eval(position, constants, item.line)
+                value = item.imm.eval(position, constants, item.line)
+                # a pc-relative reference to a constant address moves with this item
+                # itself, so it is not final yet either
+                if value != item.imm.eval(position + 2, constants, item.line):
+                    label_dependent = True
             except AssemblerError:
                 label_dependent = True
 
